@@ -189,7 +189,14 @@ def check_case(case: Case, prop: str) -> Tuple[Optional[str], str]:
 
     entries = case.q + case.an + case.au + case.ad
     try:
-        packets = build(case).packets()
+        msg = build(case)
+        packets = msg.packets()
+        # the sender reads a message more than once (every goodbye of unregister-all is the same object): the sequence is
+        # what it is, however often it is asked for
+        for again in (2, 3):
+            if msg.packets() != packets:
+                return (f"packets() read the {again}. time gives another sequence: {[len(x) for x in msg.packets()]} bytes, "
+                        f"first {[len(x) for x in packets]}"), "bad"
     except NamePartTooLongException:
         if any(label_too_long(e) for e in entries):
             return None, "rejected:NamePartTooLong"
